@@ -10,6 +10,7 @@
 -/
 import Saltpack.Proofs.RoundTripSig
 import Saltpack.Proofs.MsgpackRT
+import Saltpack.Proofs.WireRT
 import Saltpack.Toy
 
 namespace Saltpack.Props.C05
@@ -69,6 +70,17 @@ theorem C05_forms_agree (P : Prims) (valid : Validator) (kr : Keyring) (hr : Hea
 theorem C05_wire (v : Msgpack.Val) (hv : Proofs.ValWF v) (rest : Bytes) :
     Msgpack.parse1 (Msgpack.encode v ++ rest) = .ok (v, rest) :=
   Proofs.parse1_encode v hv rest
+
+/-- **Round trip on the emitted BYTES**: what `Sign` emits, split as a
+    verifier's MessagePack stream splits it, verifies to exactly the message and
+    the signer's key -/
+theorem C05_roundtrip_bytes (P : Prims) (hP : P.Lawful) (bs : Nat) (hbs : 0 < bs) (hbs32 : bs < 2 ^ 32)
+    (v : Version) (hv : v = v1 ∨ v = v2) (signer nonce msg : Bytes) (hn : nonce.length + 92 < 2 ^ 32)
+    (kr : Keyring) (hk : kr.lookupSigningPublicKey (P.sigPub signer) = some (P.sigPub signer))
+    (out : Bytes) (hout : Sign.attachedWith P bs v signer nonce msg = .ok out) :
+    ∃ hr ps, Wire.splitSig out = .ok (hr, ps) ∧
+      Sign.verifyAll P knownMajor kr hr ps = .ok (P.sigPub signer, msg) :=
+  Proofs.sign_roundtrip_bytes P hP bs hbs hbs32 v hv signer nonce msg hn kr hk out hout
 
 /-! ## non-vacuity: the hypotheses are met by the toy primitives -/
 example : Toy.prims.Lawful := Toy.lawful
